@@ -56,6 +56,19 @@ theorem aux_nodup_foldl_setRemove (ts s : List α) (h : s.Nodup) : (ts.foldl set
   | nil => simpa
   | cons t ts ih => exact ih _ (h.filter _)
 
+/-- the bare `TombstoneSet` surface shared by the hash-set, roaring and FST backends: `union_with` makes the
+set the union (still duplicate-free), answers the old length, and `collect`/`extend` build the same set -/
+theorem tombstone_union_with_spec (s o : List α) (hs : s.Nodup) :
+    (∀ y, y ∈ (tombUnionWith s o).1 ↔ y ∈ s ∨ y ∈ o) ∧ (tombUnionWith s o).1.Nodup ∧
+      (tombUnionWith s o).2 = s.length ∧ (tombUnionWith s o).1 = setExtend s o :=
+  ⟨fun y => aux_mem_setExtend o s y, aux_nodup_setExtend o s hs, rfl, rfl⟩
+
+theorem tombstone_collect_spec (xs : List α) :
+    (∀ y, y ∈ setCollect xs ↔ y ∈ xs) ∧ (setCollect xs).Nodup :=
+  ⟨fun y => by simp [setCollect, aux_mem_setExtend], aux_nodup_setExtend xs [] List.nodup_nil⟩
+
+example : tombUnionWith [1, 2] [2, 3, 3] = ([1, 2, 3], 2) := by decide
+
 end SetBacking
 
 /-! ### `SetUnionWithTombstones` -/
